@@ -127,6 +127,18 @@ fn u8_to_base(ref_base: u8) -> Base {
     }
 }
 
+/// Add-only verification hook: the REF/ALT class of a byte as a character.
+#[cfg(feature = "verif-hooks")]
+pub fn verif_u8_to_base(ref_base: u8) -> char {
+    match u8_to_base(ref_base) {
+        Base::A => 'A',
+        Base::C => 'C',
+        Base::G => 'G',
+        Base::T => 'T',
+        Base::N => 'N',
+    }
+}
+
 /// The VCF KEYS field used is currently just genotype (GT)
 /// These can be used as [`Keys`] in the genotype builder
 #[inline]
